@@ -12,9 +12,9 @@ import (
 	"fmt"
 	"os"
 	"path/filepath"
+	"runtime"
 	"strings"
 	"sync"
-	"sync/atomic"
 	"testing"
 	"time"
 
@@ -135,13 +135,12 @@ func v17Pipeline(x *vexp.X, sc *v17Scenario) (*vhook.Sched, func()) {
 	}
 }
 
-// free-running pipeline: as in a real run, the data blocks arrive at the source's own pace, not the client's (the
-// scripted producer sends its first blocks without being asked), while one client reconfigures the triggers (edge-multi,
+// free-running pipeline: as in a real run, the data blocks arrive at the source's own pace, not the client's (a
+// feeder thread, scheduled like any other, asks the scripted producer for them), while one client reconfigures the triggers (edge-multi,
 // whose search state the per-channel goroutines update in every block, edge, auto), couples channels, starts and stops
 // writing and asks for status.
 func v17FreeRun(x *vexp.X, sc *v17Scenario) (*vhook.Sched, func()) {
-	const free = 3
-	src := v11New("idle", free)
+	src := v11New("idle", 0)
 	src.pulses = true
 	src.keepPub = true
 	ctl := v11NewControl(src)
@@ -166,34 +165,91 @@ func v17FreeRun(x *vexp.X, sc *v17Scenario) (*vhook.Sched, func()) {
 			EMTBackwardCompatibleRPCFields: EMTBackwardCompatibleRPCFields{EdgeMultiMakeContaminatedRecords: contaminated,
 				EdgeMultiDisableZeroThreshold: true, EdgeMultiLevel: 100, EdgeMultiVerifyNMonotone: 1}}}
 	}
+	started, quit := make(chan struct{}), make(chan struct{})
+	// The client lets at least one block go by after each group of requests (waitBlock), as an operator does. Nothing
+	// but its requests may flow from the client to the data path, or the race detector would see the client's own
+	// writes ordered before the next block: so every wait has a channel of its own, used for exactly one send (by the
+	// feeder) and one receive (by the client) -- a channel that is used again orders the earlier receive before the
+	// later send -- and the number of the wait in progress is passed through a store the detector does not see.
+	var ticks [16]chan struct{}
+	for i := range ticks {
+		ticks[i] = make(chan struct{}, 1)
+	}
+	var waiting uint32 // index+1 of the wait in progress (race-invisible accesses only)
+	// the feeder stands for the hardware: it makes the source deliver blocks, one after the other, whatever the client does
+	feeder := func() {
+		vhook.PSC(922, []interface{}{started}, []bool{false}, false)
+		select {
+		case <-started:
+			vhook.C(0)
+		}
+		var sent [len(ticks)]bool
+		for {
+			src.demandBlock()
+			vhook.PSC(923, []interface{}{src.doneCh, quit}, []bool{false, false}, false)
+			select {
+			case <-src.doneCh:
+				vhook.C(0)
+			case <-quit:
+				vhook.C(1)
+				return
+			}
+			if w := runtime.VerifLoad32(&waiting); w > 0 && !sent[w-1] {
+				sent[w-1] = true
+				ticks[w-1] <- struct{}{}
+			}
+		}
+	}
+	nwait := 0
+	waitBlock := func() {
+		c := ticks[nwait]
+		nwait++
+		runtime.VerifStore32(&waiting, uint32(nwait))
+		vhook.PSC(924, []interface{}{c}, []bool{false}, false)
+		select {
+		case <-c:
+			vhook.C(0)
+		}
+	}
 	client := func() {
 		if err := v11Start(ctl, src); err != nil {
 			panic("harness: Start failed: " + err.Error())
 		}
+		close(started)
 		var ok bool
 		if err := ctl.ConfigureTriggers(emt(false), &ok); err != nil {
 			panic("harness: ConfigureTriggers(edge-multi) failed: " + err.Error())
 		}
+		waitBlock()
 		ctl.ConfigureTriggers(&FullTriggerState{ChannelIndices: []int{1}, TriggerState: TriggerState{AutoTrigger: true, AutoDelay: 10 * time.Millisecond}}, &ok)
 		ctl.AddGroupTriggerCoupling(GroupTriggerState{Connections: map[int][]int{0: {1}}}, &ok)
 		ctl.WriteControl(&WriteControlConfig{Request: "START", Path: dir, WriteLJH22: true}, &ok)
+		waitBlock()
 		zero, comment := 0, ""
 		ctl.ReadComment(&zero, &comment)
+		// a model for channel 0, then its replacement while records are being analysed with it
+		pbo := &ProjectorsBasisObject{ChannelIndex: 0, ProjectorsBase64: v11B64(v11Matrix(2, 12)), BasisBase64: v11B64(v11Matrix(12, 2)), ModelDescription: "m"}
+		if err := ctl.ConfigureProjectorsBasis(pbo, &ok); err != nil {
+			panic("harness: ConfigureProjectorsBasis failed: " + err.Error())
+		}
+		waitBlock()
 		ctl.ConfigureTriggers(emt(true), &ok)
+		waitBlock()
+		ctl.ConfigureProjectorsBasis(pbo, &ok)
+		waitBlock()
 		d := ""
 		ctl.SendAllStatus(&d, &ok)
 		ctl.ConfigureTriggers(&FullTriggerState{ChannelIndices: []int{0}, TriggerState: TriggerState{EdgeTrigger: true, EdgeRising: true, EdgeLevel: 100}}, &ok)
-		for i := 0; i < free; i++ {
-			<-src.doneCh // every free-running block has been processed
-		}
+		waitBlock()
+		close(quit)
 		ctl.WriteControl(&WriteControlConfig{Request: "STOP"}, &ok)
 		ctl.Stop(&d, &ok)
 	}
-	s := vhook.Run(x, vhook.Options{MaxSteps: 1500, Names: []string{"client"}, DelayBound: true}, client)
+	s := vhook.Run(x, vhook.Options{MaxSteps: 1500, Names: []string{"client", "feeder"}, DelayBound: true}, client, feeder)
 	return s, func() {
 		close(stop)
 		clientMessageChan = v17OrigCMC
-		v17Work = fmt.Sprintf("blocks=%d", atomic.LoadInt32(&src.processed))
+		v17Work = fmt.Sprintf("blocks=%d", runtime.VerifLoad32(&src.processed))
 		if src.numberWrittenTicker != nil {
 			src.numberWrittenTicker.Stop()
 			src.writingState.externalTriggerTicker.Stop()
@@ -543,7 +599,7 @@ func TestVerifC17(t *testing.T) {
 	if r.Thorough() {
 		pb = 2
 	}
-	r.SetBound(fmt.Sprintf("race-detector build; all interleavings (all select alternatives) with at most %d preemptions (life cycle) / at most as many scheduling deviations of any kind (thread choice or select alternative) from the canonical schedule (delay bounding, pipeline) of: (pipeline) one client issuing record-length, trigger, group-trigger, write-control, raw-block (two in a row), comment (write and read), state-label, send-all and stop requests against a running two-channel source with pulses, LJH2.2+LJH3 writing, group trigger, record/summary/status consumers; (free-running pipeline) the same source sending three blocks at its own pace while the client configures edge-multi / auto / edge triggers, couples channels, starts and stops LJH2.2 writing, reads the comment and asks for all status; (life cycle) Start with two concurrent Stop callers; (Abaco pipeline) real Start/readerMainLoop/getNextBlock/distributeData/CoreLoop with a scripted packet producer (two groups, one lagging, one lost packet, external-trigger packets in between), clock thread and Stop; (Lancero pipeline) real StartRun/launchLanceroReader/getNextBlock/ConfigureMixFraction/distributeData/CoreLoop with a scripted card (2x2 geometry, 20 frames in 5 reads, external-trigger bits, one lost word so that the reader re-aligns), clock thread, one mix request and Stop", pb))
+	r.SetBound(fmt.Sprintf("race-detector build; all interleavings (all select alternatives) with at most %d preemptions (life cycle) / at most as many scheduling deviations of any kind (thread choice or select alternative) from the canonical schedule (delay bounding, pipeline) of: (pipeline) one client issuing record-length, trigger, group-trigger, write-control, raw-block (two in a row), comment (write and read), state-label, send-all and stop requests against a running two-channel source with pulses, LJH2.2+LJH3 writing, group trigger, record/summary/status consumers; (free-running pipeline) the same source delivering blocks at the pace of an independent feeder thread (the client lets at least one block go by after each group of requests, with nothing but its requests flowing from it to the data path) while the client configures edge-multi / auto / edge triggers, couples channels, starts and stops LJH2.2 writing, reads the comment, loads and replaces a projector model and asks for all status; (life cycle) Start with two concurrent Stop callers; (Abaco pipeline) real Start/readerMainLoop/getNextBlock/distributeData/CoreLoop with a scripted packet producer (two groups, one lagging, one lost packet, external-trigger packets in between), clock thread and Stop; (Lancero pipeline) real StartRun/launchLanceroReader/getNextBlock/ConfigureMixFraction/distributeData/CoreLoop with a scripted card (2x2 geometry, 20 frames in 5 reads, external-trigger bits, one lost word so that the reader re-aligns), clock thread, one mix request and Stop", pb))
 	scs := []*v17Scenario{
 		{name: "pipeline", run: v17Pipeline, bound: pb}, // delay-bounded (see vhook.Options.DelayBound)
 		{name: "pipeline-freerun", run: v17FreeRun, bound: pb},
